@@ -372,6 +372,26 @@ func vpH_C09_chg_list_dups() {
 	vpReach("end")
 }
 
+// an activity whose type name is spelled in another letter case is still compared as an activity:
+// a different actor, object or target makes it unequal
+func vpH_C09_chg_activity_type_case() {
+	typ := []ActivityVocabularyType{"create", "CREATE", "Create", "lIKE"}[vpChoice(4)]
+	x := &Activity{ID: "https://h.ex/i", Type: typ, Actor: vpMkIRI('a'), Object: vpMkIRI('o'), Target: vpMkIRI('t')}
+	y := &Activity{ID: "https://h.ex/i", Type: typ, Actor: vpMkIRI('a'), Object: vpMkIRI('o'), Target: vpMkIRI('t')}
+	vpAssume(x.Actor == y.Actor && x.Object == y.Object && x.Target == y.Target)
+	vpAssert("type-case/equal-copies", ItemsEqual(x, y) && ItemsEqual(y, x))
+	switch vpChoice(3) {
+	case 0:
+		y.Actor = IRI("https://h.ex/zz")
+	case 1:
+		y.Object = IRI("https://h.ex/zz")
+	default:
+		y.Target = IRI("https://h.ex/zz")
+	}
+	vpAssert("type-case/changed-unequal", !ItemsEqual(x, y) && !ItemsEqual(y, x))
+	vpReach("end")
+}
+
 func vpH_C09_chg_id() {
 	ti := vpChoice(3)
 	x := vpNew(ti)
